@@ -6,7 +6,7 @@ busy check, is marked deleted and merged into one span from offset 0, and the fi
 length zero (result `stale`).  Core Lean only.
 -/
 
-namespace Sth
+namespace Sth.C11
 
 /-- in a file no bucket refers into, no record is busy -/
 theorem idxBusy_free {m : Mem} {f : Nat} (hfree : IdxFileFree m f) {b : Nat} (hb : b < 2 ^ m.bits)
@@ -221,4 +221,4 @@ theorem reapIndexRecords_free (hfree : IdxFileFree m f) (ss : List GSpan)
 
 end
 
-end Sth
+end Sth.C11
